@@ -26,6 +26,8 @@
 From Coq Require Import ZArith List Bool Relations.
 From FT Require Import Base.Dict Model.Edit Model.EditExec Proofs.EditInv Proofs.EditWalk Proofs.EditUserEdge
   Proofs.EditGlobal Proofs.EditLin Proofs.EditLinExample.
+From FT Require Proofs.EditNodeBasic Proofs.EditBook Proofs.EditUDN Proofs.EditUAN Proofs.EditWFEdge.
+From FT Require Gen.History_gen Proofs.HistoryGen Props.C02.
 Import ListNotations.
 Open Scope Z_scope.
 
@@ -140,6 +142,48 @@ Theorem C05_frame_swap : forall st n1 n2 a st',
 Proof. exact swap_frame. Qed.
 
 (* ---- non-vacuity: division 1 -> 2, 1 -> 3 and continuation 2 -> 4, one lineage (id 1) ---- *)
+(* ---- node actions: the six graph-and-id invariants (configuration, dictionaries, forest, track ids,
+        lineage ids, lookups) are preserved together by UserDeleteNode and UserAddNode, all branches
+        (dividing parent, root, bridge; splice into a skip edge, forced cuts, fresh track id) ---- *)
+Theorem C05_step_delete_node : forall st n pxo top a st',
+  EditUDN.GWF st -> user_delete_node st n pxo top = Ok a st' -> EditUDN.GWF st'.
+Proof. exact EditUDN.udn_GWF. Qed.
+
+(* what a node deletion may relabel: lineage ids only strictly below the deleted node, track ids only
+   when the parent of the deleted node divides (the sibling then continues the parent's track) *)
+Theorem C05_frame_delete_node : forall st n pxo top a st',
+  EditUDN.GWF st -> user_delete_node st n pxo top = Ok a st' ->
+  (forall m, m <> n -> ~ EditWalk.reach st n m -> lin st' m = lin st m) /\
+  ((forall q, edge st q n -> ~ divides st q) -> forall m, m <> n -> trk st' m = trk st m).
+Proof. exact EditUDN.udn_id_frame. Qed.
+
+(* UserAddNode, for attributes inside the documented domain (integer time / track id, no
+   caller-supplied lineage id) *)
+Theorem C05_step_add_node : forall st n a px force top act st',
+  cfg_ok st -> W_dict st -> W_forest st -> W_trk st -> W_lin st -> W_book st ->
+  EditBook.rp_disjoint st -> EditUAN.attrs_ok a -> haskey KLin a = false ->
+  user_add_node st n a px force top = Ok act st' ->
+  cfg_ok st' /\ W_dict st' /\ W_forest st' /\ W_trk st' /\ W_lin st' /\ W_book st'.
+Proof. exact EditUAN.user_add_node_keeps_all. Qed.
+
+(* every state reachable by edge-level calls from a well-formed state is well formed (WF includes W_trk) *)
+Theorem C05_run_edge_calls : forall ops st,
+  forallb EditWFEdge.edge_fragment ops = true -> WF st -> WF (run st ops).
+Proof. exact EditWFEdge.run_edge_WF. Qed.
+
+(* ---- undo / redo: the history mechanism this property quantifies over (Tracks.undo / redo,
+        ActionHistory) is, in the model, the code translated on every run from the current
+        actions/action_history.py (Gen/History_gen.v); C02_timeline states what it guarantees ---- *)
+Theorem C05_history_is_generated : forall st a dA,
+  (let h := fst (FT.Gen.History_gen.add_new_action state action (FT.Proofs.HistoryGen.to_hist st) a st) in
+   undo_stack (hist_add st a) = FT.Gen.History_gen.undo_stack _ _ h /\ redo_stack (hist_add st a) = FT.Gen.History_gen.redo_stack _ _ h) /\
+  (let gr := FT.Gen.History_gen.undo state action FT.Proofs.HistoryGen.inv_total dA (FT.Proofs.HistoryGen.to_hist st) in
+   match undo st with
+   | Ok b s' => snd gr = b /\ undo_stack s' = FT.Gen.History_gen.undo_stack _ _ (fst gr) /\ redo_stack s' = FT.Gen.History_gen.redo_stack _ _ (fst gr)
+   | Err _ _ => True
+   end).
+Proof. exact FT.Props.C02.C02_edit_machine_uses_generated. Qed.
+
 Example C05_example_invariants : LWF ex5.
 Proof. exact ex5_LWF. Qed.
 
@@ -172,3 +216,8 @@ Print Assumptions C05_frame_add_edge.
 Print Assumptions C05_step_swap.
 Print Assumptions C05_swap_ids.
 Print Assumptions C05_frame_swap.
+Print Assumptions C05_step_delete_node.
+Print Assumptions C05_frame_delete_node.
+Print Assumptions C05_step_add_node.
+Print Assumptions C05_run_edge_calls.
+Print Assumptions C05_history_is_generated.
